@@ -106,14 +106,20 @@ pub enum Call {
     B,
     L,
     H,
+    /// `nth(k)`
+    N(u8),
+    /// `nth_back(k)`
+    M(u8),
 }
 impl Call {
-    pub fn ch(self) -> &'static str {
+    pub fn ch(self) -> String {
         match self {
-            Call::F => "f",
-            Call::B => "b",
-            Call::L => "l",
-            Call::H => "h",
+            Call::F => "f".into(),
+            Call::B => "b".into(),
+            Call::L => "l".into(),
+            Call::H => "h".into(),
+            Call::N(k) => format!("n{}", k),
+            Call::M(k) => format!("m{}", k),
         }
     }
 }
@@ -222,7 +228,7 @@ fn calls(xs: &[Call]) -> String {
     let mut s = format!("{}", xs.len());
     for c in xs {
         s.push(' ');
-        s.push_str(c.ch());
+        s.push_str(&c.ch());
     }
     s
 }
@@ -456,6 +462,8 @@ impl<'a> Toks<'a> {
             "b" => Call::B,
             "l" => Call::L,
             "h" => Call::H,
+            x if x.starts_with('n') => Call::N(x[1..].parse().map_err(|e| format!("{:?}", e))?),
+            x if x.starts_with('m') => Call::M(x[1..].parse().map_err(|e| format!("{:?}", e))?),
             x => return Err(format!("bad call {}", x)),
         })
     }
@@ -540,6 +548,14 @@ where
                 None => out.push_str(" s none"),
             },
             Call::B => match it.next_back() {
+                Some(x) => write!(out, " s some {}", show(&x)).unwrap(),
+                None => out.push_str(" s none"),
+            },
+            Call::N(k) => match it.nth(*k as usize) {
+                Some(x) => write!(out, " s some {}", show(&x)).unwrap(),
+                None => out.push_str(" s none"),
+            },
+            Call::M(k) => match it.nth_back(*k as usize) {
                 Some(x) => write!(out, " s some {}", show(&x)).unwrap(),
                 None => out.push_str(" s none"),
             },
@@ -678,7 +694,7 @@ pub fn apply<H: BuildHasher + Default + Clone>(q: &mut AnyQ<H>, op: &Op, lk: Loo
                     let mut it = x.iter_mut();
                     for (c, w) in prog {
                         match c {
-                            Call::F => match it.next() {
+                            Call::F | Call::N(_) => match (if let Call::N(k) = c { it.nth(*k as usize) } else { it.next() }) {
                                 Some((i, p)) => {
                                     let a = i as *mut SItem as usize;
                                     if addrs.contains(&a) { alias = true; }
@@ -698,8 +714,8 @@ pub fn apply<H: BuildHasher + Default + Clone>(q: &mut AnyQ<H>, op: &Op, lk: Loo
                     let mut it = x.iter_mut();
                     for (c, w) in prog {
                         match c {
-                            Call::F | Call::B => {
-                                let r = if *c == Call::F { it.next() } else { it.next_back() };
+                            Call::F | Call::B | Call::N(_) | Call::M(_) => {
+                                let r = match c { Call::F => it.next(), Call::B => it.next_back(), Call::N(k) => it.nth(*k as usize), Call::M(k) => it.nth_back(*k as usize), _ => unreachable!() };
                                 match r {
                                     Some((i, p)) => {
                                         let a = i as *mut SItem as usize;
@@ -801,6 +817,7 @@ pub fn apply<H: BuildHasher + Default + Clone>(q: &mut AnyQ<H>, op: &Op, lk: Loo
                 for c in cs {
                     match c {
                         Call::F => out.push_str(&format!(" s {}", opt_eo(&it.next()))),
+                        Call::N(k) => out.push_str(&format!(" s {}", opt_eo(&it.nth(*k as usize)))),
                         Call::H => out.push_str(&hint_str(it.size_hint())),
                         _ => out.push_str(" u"),
                     }
